@@ -134,6 +134,31 @@ func protocolViolations(ev []walEvent) []string {
 	return out
 }
 
+// creationLost: is the (unlogged, un-synced) creation of the record's year file
+// among the operations a power loss at k drops? (C04's known finding; the
+// WAL protocol itself is not at fault then)
+func creationLost(log []*simos.Op, synced []int, k int, mode, key string, t int64) bool {
+	if !strings.HasPrefix(mode, "power") {
+		return false
+	}
+	path := fmt.Sprintf("%s/%s/%d.bin", dataRoot, key, time.Unix(0, t).UTC().Year())
+	for i := 0; i < k && i < len(log); i++ {
+		op := log[i]
+		if op.Path == path && op.DataOp() && synced[i] >= k &&
+			(strings.Contains(op.Site, "WriteHeader") || strings.Contains(op.Site, "newTimeBucketInfoFromTemplate")) {
+			return true
+		}
+	}
+	return false
+}
+
+func c05Cause(log []*simos.Op, synced []int, k int, mode, key string, t int64, phase string) string {
+	if creationLost(log, synced, k, mode, key, t) {
+		return "file-creation-not-durable"
+	}
+	return phase
+}
+
 func c05Engine() *Engine {
 	return &Engine{Name: "SCHED+CRASH", Run: func(seed uint64, tier string, res *Result) {
 		r := simrt.NewRand(seed ^ 0x0505)
@@ -256,7 +281,7 @@ func c05Engine() *Engine {
 							}
 							if e.b.Variable {
 								if o.varCnt[e.id] == 0 {
-									res.AddViolation(&Violation{Prop: "C05", Class: "commit-lost", Sig: "C05|commit-lost|variable|" + imgKindClass(mode) + "|" + walPhase(ev, k), Seed: seed,
+									res.AddViolation(&Violation{Prop: "C05", Class: "commit-lost", Sig: "C05|commit-lost|variable|" + imgKindClass(mode) + "|" + c05Cause(sr.log, synced, k, mode, e.key, e.T, walPhase(ev, k)), Seed: seed,
 										Detail: fmt.Sprintf("record id %d of %s was acknowledged at log position %d; after a crash at %d (%s, window %s) and recovery it is missing", e.id, e.key, op.ack, k, mode, win),
 										Replay: map[string]interface{}{"engine": "walproto", "k": k, "image": mode, "history": describeHistory(sr)}})
 									bad = true
@@ -264,7 +289,7 @@ func c05Engine() *Engine {
 							} else {
 								got, have := o.fixed[e.T]
 								if !have || (got != e.id && writeEntirelyBefore(sr, e.key, e.T, got, op)) {
-									res.AddViolation(&Violation{Prop: "C05", Class: "commit-lost", Sig: "C05|commit-lost|fixed|" + imgKindClass(mode) + "|" + walPhase(ev, k), Seed: seed,
+									res.AddViolation(&Violation{Prop: "C05", Class: "commit-lost", Sig: "C05|commit-lost|fixed|" + imgKindClass(mode) + "|" + c05Cause(sr.log, synced, k, mode, e.key, e.T, walPhase(ev, k)), Seed: seed,
 										Detail: fmt.Sprintf("id %d of %s %s was acknowledged at log position %d; after a crash at %d (%s, window %s) recovery leaves id %d (present=%v): the commit is lost or an older commit won", e.id, e.key, ts(e.T), op.ack, k, mode, win, got, have),
 										Replay: map[string]interface{}{"engine": "walproto", "k": k, "image": mode, "history": describeHistory(sr)}})
 									bad = true
